@@ -20,7 +20,7 @@ var refSymBytes = map[string][]string{
 	"w": {"a", "Z", "0", "_", "}", "]", "+", "lockx", "xlock"}, "/": {"/"}, ".": {"."}, "@": {"@"}, "{": {"{"},
 	"~": {"~"}, "^": {"^"}, ":": {":"}, "?": {"?"}, "*": {"*"}, "[": {"["}, "bs": {"\\"},
 	"sp": {" "}, "ctl": {"\x01", "\x1f", "\x7f", "\t", "\n"}, "hi": {"\xc3\xa9", "\x80", "\xff"},
-	"-": {"-"}, "lock": {"lock"}, "refs": {"refs"}, "heads": {"heads"}, "tags": {"tags"},
+	"-": {"-"}, "lock": {"lock"}, "wlock": {"x.lock", "a.b.lock"}, "refs": {"refs"}, "heads": {"heads"}, "tags": {"tags"},
 }
 
 type refRow struct {
